@@ -61,7 +61,7 @@ Qed.
 (* pinned tree: the search finds a witness of length 1 (one earlier operation); repaired: nothing up to length 3 *)
 Lemma bfs_pinned : bfs pinned Wref fsref alpha_ref 4 = Some ([Load KMat 0%nat], Load KVec 1%nat).
 Proof. vm_compute. reflexivity. Qed.
-Lemma bfs_open_fix_only : bfs {| consume_before_open := true; tag_at_gcount := false |} Wref fsref alpha_ref 4 = Some ([Load KMat 2%nat], Load KMat 3%nat).
+Lemma bfs_open_fix_only : bfs {| consume_before_open := true; tag_at_gcount := false; whole_tag := false |} Wref fsref alpha_ref 4 = Some ([Load KMat 2%nat], Load KMat 3%nat).
 Proof. vm_compute. reflexivity. Qed.
 Lemma bfs_repaired : bfs repaired Wref fsref alpha_ref 3 = None.
 Proof. vm_compute. reflexivity. Qed.
